@@ -150,4 +150,45 @@ Section BrokerJournalProofs.
       rewrite Hsk. rewrite in_sk_of. unfold JournalProofs.masks. apply in_map_iff.
       exists e. split; [symmetry; exact Hx | exact He].
   Qed.
+
+  (* ---------- the broker with a journal sink that may fail ---------- *)
+  Notation bfrun := (bfrun hash mask heqb).
+  Notation bfapply := (bfapply hash mask heqb).
+  Notation fjrun := (fjrun bytes hash mask heqb).
+
+  Lemma bfrun_split_gen : forall ops s,
+    bf_m (bfrun ops s) = exec (flat_map mop_of ops) (bf_m s) /\
+    bf_w (bfrun ops s) = fjrun (flat_map jop_of ops) (bf_w s).
+  Proof.
+    induction ops as [|o ops IH]; intro s; cbn [BrokerJournal.bfrun fold_left flat_map].
+    - split; reflexivity.
+    - destruct (IH (bfapply s o)) as [H1 H2]. unfold BrokerJournal.bfrun in H1, H2. rewrite H1, H2.
+      unfold exec, Journal.fjrun. rewrite !fold_left_app.
+      destruct o as [now o|now]; cbn [BrokerJournal.bfapply bf_m bf_w mop_of jop_of fold_left].
+      + split; [reflexivity|]. destruct (recorded o); reflexivity.
+      + split; reflexivity.
+  Qed.
+
+  (* whatever writes fail: the metrics are untouched by the journal, every chunk that can be read back holds only
+     addresses of accepted polls whose instants lie inside the chunk's recording span, the open sketch holds polls
+     no older than the last write taken for successful, and nothing is lost while no line of the file was damaged *)
+  Lemma failed_writes_broker : forall g t0 k plan ops,
+    bmono t0 ops ->
+    let s := bfrun ops (bfinit hash g t0 k plan) in
+    let polls := flat_map accepted ops in
+    bf_m s = exec (flat_map mop_of ops) (minit g) /\
+    (forall c, In (Some c) (file_of (bf_w s)) ->
+       exists seg, c_sk c = sk_of (masks seg) /\ c_start c <= c_end c /\
+                   Forall (fun e => c_start c <= fst e <= c_end c) seg /\ incl seg polls) /\
+    (exists open, f_cur (bf_w s) = sk_of (masks open) /\ Forall (fun e => f_last (bf_w s) <= fst e) open /\ incl open polls /\
+       (readable (f_lines (bf_w s)) = true ->
+        forall e, In e polls -> In e open \/
+          exists c seg, In (Some c) (f_lines (bf_w s)) /\ c_sk c = sk_of (masks seg) /\ In e seg /\
+                        c_start c <= fst e <= c_end c)).
+  Proof.
+    intros g t0 k plan ops HM s polls.
+    destruct (bfrun_split_gen ops (bfinit hash g t0 k plan)) as [H1 H2]. fold s in H1, H2. cbn [bfinit bf_m bf_w] in H1, H2.
+    split; [exact H1|]. rewrite H2. unfold polls. rewrite <- events_accepted.
+    apply (failed_writes bytes hash mask heqb t0 k plan (flat_map jop_of ops)). apply bmono_mono. exact HM.
+  Qed.
 End BrokerJournalProofs.
